@@ -12,7 +12,8 @@ matrix (the driver broadcasts scalars / vectors as numpy does).
 
 Python facts that are modelled, not derived: `reshape`/`flatten` are index arithmetic; `if prox:` and
 `if cb:` are Python truthiness (`None` and `0` alike are false); a start point given by the caller
-must be an ndarray (`s0.flatten()`); `solver_options` only reach the optimiser (a parameter here).
+must be an ndarray (`s0.flatten()`); of `solver_options` only `ftol` is read by `solve` itself (the
+shortcut's tolerance), the rest only reach the optimiser (a parameter here).
 -/
 namespace DK
 section
@@ -99,17 +100,32 @@ def startPoint (d : SDev α) (s0? : Option (Nat → α)) : Nat → α :=
   | some s => s
   | none => flat d.n (d.project (fun _ _ => 0))
 
-/-- `solve(device, p, s0, solver_options, prox, cb)` (solve.py:42-88).
-`.error o` is `raise OptimizationException(o)`.
-NOTE (as the code is): the all-slots-fixed shortcut returns the lower bounds reshaped WITHOUT calling
-the optimiser and WITHOUT consulting `device.constraints`. -/
-def solve (d : SDev α) (P : Mat α) (s0? : Option (Nat → α)) (prox : Option α) (cb : Bool)
-    (minimize : Problem α → Result α) : Except (Result α) (Mat α × Option (Result α)) :=
+/-- what `OptimizationException` carries: the optimiser's result, or (the all-fixed shortcut) just a
+message. -/
+inductive OptExc (α : Type) where
+  | result (o : Result α)
+  | fixedInfeasible
+
+/-- the shortcut's test of one constraint at the only in-bounds flow (solve.py:64-66): it fails when
+`v < -ftol`, or, for an `eq` constraint, also when `v > ftol`. -/
+def Con.withinTol (tol : α) (c : Con α) (x : Nat → α) : Bool :=
+  !(decide (c.fn x < -tol) || (c.isEq && decide (tol < c.fn x)))
+
+/-- `solve(device, p, s0, solver_options, prox, cb)` (solve.py:42-93).  `tol` is
+`_solver_options['ftol']` (default `1e-6`, overridable through `solver_options`); the other solver
+options only reach the optimiser.  `.error e` is `raise OptimizationException(...)`.
+The all-slots-fixed shortcut does not call the optimiser: it evaluates every constraint of
+`device.constraints` at the flattened lower bounds and raises when one fails `withinTol`, else returns
+the lower bounds reshaped. -/
+def solve (d : SDev α) (P : Mat α) (s0? : Option (Nat → α)) (prox : Option α) (cb : Bool) (tol : α)
+    (minimize : Problem α → Result α) : Except (OptExc α) (Mat α × Option (Result α)) :=
   if allFixed d.dim d.flatBounds then
-    .ok (unflat d.n (fun k => (d.flatBounds k).1), none)
+    if (d.cons.map (MCon.toFlat d.n)).all (fun c => c.withinTol tol (fun k => (d.flatBounds k).1)) then
+      .ok (unflat d.n (fun k => (d.flatBounds k).1), none)
+    else .error .fixedInfeasible
   else
     let o := minimize (solveProblem d P (startPoint d s0?) prox cb)
-    if o.success then .ok (unflat d.n o.x, some o) else .error o
+    if o.success then .ok (unflat d.n o.x, some o) else .error (.result o)
 
 /-! ## step -/
 
